@@ -8,11 +8,14 @@ per named fork. For an `Option<u64>` function the property reads
 `Model.f args = some v ↔ Spec.f args = v ∧ v < 2^64` (failure exactly when the true value does not
 fit); for a `u64` function plain equality.
 
-Three places where the *code* does not satisfy that reading (the model stays faithful, see the
+Two places where the *code* does not satisfy that reading (the model stays faithful, see the
 `_counterexample` theorems): (1) `num_words` saturates at `len > 2^64 − 32` and is one word short,
-which every per-word cost inherits; (2) `memory_gas` squares with `saturating_mul` and undercharges
-from 2^32 words on; (3) `calculate_initial_tx_gas` / `calc_tx_floor_cost` use wrapping `+`/`*` and
-cannot report failure. Theorems on the characterised domain are named `_partial`, the full
+which every per-word cost inherits; (2) `calculate_initial_tx_gas` / `calc_tx_floor_cost` use
+wrapping `+`/`*` and cannot report failure. A third one, `memory_gas` squaring with `saturating_mul`
+and undercharging from 2^32 words on, was repaired in /repo (`fix: memory_gas undercharged …`); the
+model follows the repaired code and `memory_gas_full` now holds without a bound. `memory_gas` returns
+`u64`, so "reports failure" is saturation to `u64::MAX` (`resize_memory_counterexample` records the
+one consequence: a caller holding exactly `u64::MAX` gas). Theorems on the characterised domain are named `_partial`, the full
 statement is the `def FullStatement_…` next to them. -/
 namespace Revm.Props.C14
 open Revm Revm.Model.GasCalc
@@ -188,48 +191,56 @@ example : Spec.GasCalc.sstoreCost .istanbul (Spec.GasCalc.classify 0 0 1) 10000 
 def FullStatement_memory_gas : Prop := ∀ w, w < U64 →
   (memCost w < U64 → memoryGas w = memCost w) ∧ (U64 ≤ memCost w → memoryGas w = U64 - 1)
 
-/-- below 2^32 words (128 GiB) `memory_gas` is the Yellow Paper C_mem -/
-theorem memory_gas_partial (w : Nat) (h : w < 2^32) : memoryGas w = memCost w :=
+/-- `memory_gas` (after the repair `fix: memory_gas undercharged …`: 128-bit intermediate) is the
+Yellow Paper C_mem whenever that fits in 64 bits and `u64::MAX` otherwise, for every word count -/
+theorem memory_gas_full : FullStatement_memory_gas :=
+  fun w _ => ⟨Proofs.GasCalc.memoryGas_exact w, Proofs.GasCalc.memoryGas_sat w⟩
+
+theorem memory_gas_eq_min (w : Nat) : memoryGas w = min (memCost w) (U64 - 1) :=
+  Proofs.GasCalc.memoryGas_full w
+
+/-- below 2^32 words (128 GiB) C_mem always fits -/
+theorem memory_gas_below_2_32 (w : Nat) (h : w < 2^32) : memoryGas w = memCost w :=
   Proofs.GasCalc.memoryGas_eq w h
 example : (724 : Nat) < 2^32 := by decide
 
-/-- from 2^32 words on the code always returns less than the true cost -/
-theorem memory_gas_undercharges (w : Nat) (h : 2^32 ≤ w) (hw : w < U64) : memoryGas w < memCost w :=
-  Proofs.GasCalc.memoryGas_under w h hw
-example : (2^32 : Nat) ≤ 2^33 ∧ 2^33 < U64 := by rw [U64_val]; decide
-
-/-- witness: 2^33 words cost 144115213845659648 (fits in 64 bits), the code says 36028822788767743 -/
-theorem memory_gas_counterexample : ¬ FullStatement_memory_gas := by
-  intro h
-  have := (h (2^33) (by rw [U64_val]; decide)).1 (by rw [U64_val]; decide)
-  revert this; decide
+/-- regression of the repaired defect: 2^33 words cost 144115213845659648 (the code used to say
+36028822788767743), and 2^37 words (true cost above 2^64) saturate -/
+theorem memory_gas_regression :
+    memoryGas (2^33) = 144115213845659648 ∧ memoryGas (2^37) = 18446744073709551615 := by decide
 
 def FullStatement_resize_memory : Prop := ∀ cur rem new, cur ≤ new → new < U64 → rem < U64 →
   resizeMemory cur rem new =
     if memExpansion cur new ≤ rem then (true, rem - memExpansion cur new, 32 * ceil32 new)
     else (false, rem, cur)
 
-/-- `resize_memory` (expansion to fewer than 2^37 bytes): charges exactly the expansion cost, fails
-(`MemoryOOG`) exactly when it exceeds the gas left, new length is the word-aligned size -/
-theorem resize_memory_partial (cur rem new : Nat) (hcn : cur ≤ new) (hnew : new + 31 < 2^37) :
+/-- `resize_memory` (expansion to a size whose C_mem fits in 64 bits, i.e. up to about 2^36.5 words):
+charges exactly the expansion cost, fails (`MemoryOOG`) exactly when it exceeds the gas left, new
+length is the word-aligned size -/
+theorem resize_memory_partial (cur rem new : Nat) (hcn : cur ≤ new) (hnew : new + 31 < U64)
+    (hfit : memCost (ceil32 new) < U64) :
     resizeMemory cur rem new =
       if memExpansion cur new ≤ rem then (true, rem - memExpansion cur new, 32 * ceil32 new)
-      else (false, rem, cur) := Proofs.GasCalc.resizeMemory_eq cur rem new hcn hnew
-example : (64 : Nat) ≤ 1000 ∧ 1000 + 31 < 2^37 := by decide
+      else (false, rem, cur) := Proofs.GasCalc.resizeMemory_eq cur rem new hcn hnew hfit
+example : (64 : Nat) ≤ 2^38 ∧ 2^38 + 31 < U64 ∧ memCost (ceil32 (2^38)) < U64 := by
+  rw [U64_val]; decide
 
+/-- what remains outside: `memory_gas` cannot report failure, it saturates to `u64::MAX`; with
+exactly `u64::MAX` gas left an expansion whose true cost needs more than 64 bits is accepted -/
 theorem resize_memory_counterexample : ¬ FullStatement_resize_memory := by
   intro h
-  have := h 0 (2^56) (2^38) (by decide) (by rw [U64_val]; decide) (by rw [U64_val]; decide)
-  revert this; decide
+  have := h 0 (U64 - 1) (2^42) (by decide) (by rw [U64_val]; decide) (by rw [U64_val]; decide)
+  revert this; rw [U64_val]; decide
 
 /-- the `resize_memory!` macro under the same bound -/
-theorem resize_macro_partial (cur rem off len : Nat) (h : off + len + 31 < 2^37) :
+theorem resize_macro_partial (cur rem off len : Nat) (h : off + len + 31 < U64)
+    (hfit : memCost (ceil32 (off + len)) < U64) :
     resizeMemoryMacro cur rem off len =
       if off + len ≤ cur then some (rem, cur)
       else if memExpansion cur (off + len) ≤ rem then
         some (rem - memExpansion cur (off + len), 32 * ceil32 (off + len))
-      else none := Proofs.GasCalc.resizeMemoryMacro_eq cur rem off len h
-example : (100 : Nat) + 200 + 31 < 2^37 := by decide
+      else none := Proofs.GasCalc.resizeMemoryMacro_eq cur rem off len h hfit
+example : (100 : Nat) + 200 + 31 < U64 ∧ memCost (ceil32 (100 + 200)) < U64 := by rw [U64_val]; decide
 
 /-! ## transaction intrinsic gas and floor -/
 
